@@ -278,5 +278,5 @@ Proof.
   pose proof (vpath_resolve _ _ _ _ _ _ _ V) as R.
   pose proof (elem_in_parent_l _ _ _ _ Wf R) as [_ [B1 B2]].
   split; [|split; [exact R|split; assumption]].
-  eapply vaddr_path_correct_l; eauto. cbn. intros E. discriminate.
+  eapply vaddr_path_correct_l; eauto; [lia|]. unfold head_ne. intros E. vm_compute in E. discriminate.
 Qed.
